@@ -2068,6 +2068,19 @@ def nontrivial_key(case, info):
     return key
 
 
+def generate(ctx):
+    """translator tie: the sampler formulas (Laplace 4-uniform combination, Gaussian, Uniform, Staircase, Snapping scaling /
+    rounding) are re-read from /repo's AST on every run, translated to Lean terms over ℝ and proved equal to the model's
+    (harness/anchor_specs_c03.py, harness/anchors.py)"""
+    from .. import anchors, anchor_specs_c03 as S
+    from ..shim import REPO
+    r = anchors.build(REPO, "C03", ["DPL.Proofs.SamplersReal"], S.specs(), opens="", postlude=getattr(S, "POST", ""))
+    ctx.count("formula_anchors", r["obligations"])
+    if r["errors"]:
+        r["unavailable"] = r["errors"]      # anchors that could not be located / translated (not failed obligations)
+    return r
+
+
 def check(ctx):
     r = ctx.fork("cases")
     n_total = ctx.budget(3000, 24000)
